@@ -274,6 +274,13 @@ class OrderInterp:
                     self.tag(c)
             self.tag(e.elt)
             self.env = saved
+            # [len(x) for x in X] / [len(x.df) ..]: the elements of X are sized containers (the lists of a chart, in slot order), not the
+            # rows of a frame — the result is one number per list, and its order is not a row order
+            if len(e.generators) == 1 and isinstance(e.generators[0].target, ast.Name) and first.kind == "rows":
+                v_ = e.generators[0].target.id
+                t_ = ast.unparse(e.elt).replace(" ", "")
+                if t_ in (f"len({v_})", f"len({v_}.df)", f"{v_}.df.shape[0]", f"len({v_}._df)"):
+                    return TOP
             return SCALAR if isinstance(e, ast.SetComp) else first
         if isinstance(e, ast.DictComp):
             saved = dict(self.env)
